@@ -103,8 +103,33 @@ func TypeIsObject(d Datum) (bool, string) {
 // Used to convert nodesets as well as strings.  Returns NaN in cases of
 // error.
 func numberFromString(numStr string) float64 {
-	num, err := strconv.ParseFloat(strings.TrimSpace(numStr), 0)
-	if err != nil {
+	// XPATH 'Number' surrounded by optional XML whitespace and preceded by
+	// an optional minus sign.  Anything else (exponents, hex, leading '+',
+	// other Unicode blanks ...) is NaN.
+	numStr = strings.Trim(numStr, " \t\r\n")
+	switch numStr {
+	case "Infinity":
+		return math.Inf(1)
+	case "-Infinity":
+		return math.Inf(-1)
+	}
+	digits, dots := 0, 0
+	for i, c := range numStr {
+		switch {
+		case c >= '0' && c <= '9':
+			digits++
+		case c == '.':
+			dots++
+		case c == '-' && i == 0:
+		default:
+			return math.NaN()
+		}
+	}
+	if digits == 0 || dots > 1 {
+		return math.NaN()
+	}
+	num, err := strconv.ParseFloat(numStr, 64)
+	if err != nil && !math.IsInf(num, 0) {
 		return math.NaN()
 	}
 	return num
